@@ -174,6 +174,25 @@ func init() {
 			}
 			panic(hardErr("strconv.Atoi of a string not built by Itoa"))
 		},
+		"context.WithCancel": func(e *Engine, c *callCtx) bool {
+			ch := ChanV{e.newObj(c.st, &Object{kind: kChan, ch: &chanState{cap: 0}})}
+			id := e.newObj(c.st, &Object{kind: kStruct, typ: e.ctxType(), fields: []Value{ch}})
+			c.set(TupleV{IfaceV{typ: e.ctxType(), val: PtrV{id, -1}}, NativeFn{name: "ctxCancel", data: ch}})
+			return true
+		},
+		// io.Copy between two connections: modelled as ending at once (the piping itself is outside the claim)
+		"io.Copy": func(e *Engine, c *callCtx) bool {
+			if c.st.ghost == nil {
+				c.st.ghost = map[string]Value{}
+			}
+			n, _ := c.st.ghost["io_copy_calls"].(IntV)
+			if n.t == nil {
+				n = e.goInt(0)
+			}
+			c.st.ghost["io_copy_calls"] = e.ibin(token.ADD, n, e.goInt(1))
+			c.set(TupleV{e.freshInt(c.st, "copied", 64, true), IfaceV{}})
+			return true
+		},
 		"context.TODO":       func(e *Engine, c *callCtx) bool { c.set(IfaceV{}); return true },
 		"context.Background": func(e *Engine, c *callCtx) bool { c.set(IfaceV{}); return true },
 		"strconv.Itoa":       stubItoa,
@@ -599,6 +618,18 @@ func (e *Engine) wrapErrType() types.Type {
 	n := types.NewNamed(types.NewTypeName(token.NoPos, nil, "vWrapErr", nil), types.NewStruct(nil, nil), nil)
 	t := types.NewPointer(n)
 	e.errTypeCache["wrapErr"] = t
+	return t
+}
+
+func (e *Engine) ctxType() types.Type {
+	e.mu.Lock()
+	defer e.mu.Unlock()
+	if t, ok := e.errTypeCache["vCtx"]; ok {
+		return t
+	}
+	n := types.NewNamed(types.NewTypeName(token.NoPos, nil, "vCtx", nil), types.NewStruct(nil, nil), nil)
+	t := types.NewPointer(n)
+	e.errTypeCache["vCtx"] = t
 	return t
 }
 
